@@ -417,6 +417,9 @@ def check(ctx):
     with ctx.shared({"C07.R3": ("C06.R8", "outside a reload a socket's records leave the live tables only when they have expired (expire_interval, not a "
                                 "shorter timer): a reload that starts later than refresh_interval still replaces the old set atomically")}):
         C07.r3(ctx, retsets)
+    with ctx.shared({"C03.R5": ("C06.R9", "the update and undo helpers operate on the table they are handed (the shadow table during a reload), never on "
+                                "the socket's live table")}):
+        C03.r5(ctx)
     ctx.not_decided("reader-visible states inside user callbacks; equality of the new data set with the cache's set")
 
 
